@@ -230,7 +230,7 @@ impl Scenario for C05 {
             components_stubbed: &["TCP socket (SimNet pipe)", "peer (byte feeder / collector)"],
             assumptions: &["TCP semantics: bytes arrive in order, unmodified, until close/reset", "allocation size measured per thread by a counting global allocator"],
             fault_prefixes: &["fault.", "net."],
-            expected_probes: &["probe.c05.eof_in_prefix", "probe.c05.eof_in_body", "probe.c05.eof_between_frames", "probe.c05.overcap_refused", "probe.c05.zero_len_frame", "probe.c05.len_65536", "probe.c05.handover_coalesced", "probe.c05.frame_above_16_mib", "probe.c05.idle_beyond_read_timeout", "probe.c05.prefix_in_two_pieces", "probe.c05.mode_switched_after_construction", "probe.c05.large_frame_that_is_no_message", "probe.c05.node_loop_without_timeout", "probe.c05.read_timed_out_inside_a_frame"],
+            expected_probes: &["probe.c05.eof_in_prefix", "probe.c05.eof_in_body", "probe.c05.eof_between_frames", "probe.c05.overcap_refused", "probe.c05.zero_len_frame", "probe.c05.len_65536", "probe.c05.handover_coalesced", "probe.c05.frame_above_16_mib", "probe.c05.idle_beyond_read_timeout", "probe.c05.prefix_in_two_pieces", "probe.c05.mode_switched_after_construction", "probe.c05.large_frame_that_is_no_message", "probe.c05.node_loop_without_timeout", "probe.c05.read_timed_out_inside_a_frame", "probe.c05.control_only_frame"],
         }
     }
 }
@@ -602,6 +602,13 @@ async fn nodeloop(w: &Arc<World>, p: &Plan) {
         let msg = Val::tuple(vec![Val::int(i as i128), Val::Bin(body)]);
         stream.extend_from_slice(&wire::frame4(&wire::pass_through(&ctl, Some(&msg))));
         expect.push(Some((ctl, msg)));
+        // a message that consists of its control tuple alone (LINK), usually much shorter than its neighbours
+        if r.chance(1, 3) {
+            let link = Val::tuple(vec![Val::int(1), wire::gen_pid(&mut r, Some("peer@host")), wire::gen_pid(&mut r, Some("sut@host"))]);
+            stream.extend_from_slice(&wire::frame4(&wire::pass_through(&link, None)));
+            expect.push(Some((link, Val::atom("$no_payload"))));
+            w.stat("probe.c05.control_only_frame");
+        }
     }
     let overcap = p.fault_at % 3 == 1;
     if overcap {
@@ -641,7 +648,8 @@ async fn nodeloop(w: &Arc<World>, p: &Plan) {
                 Ok((c, m)) => {
                     let cv = to_val(&c.to_term());
                     let mv = m.as_ref().map(to_val);
-                    if &cv != ctl || mv.as_ref() != Some(msg) {
+                    let want_payload = if *msg == Val::atom("$no_payload") { None } else { Some(msg) };
+                    if &cv != ctl || mv.as_ref() != want_payload {
                         w3.violation("frame-mismatch", format!("node loop: message {} came back as {} / {:?}", i, cv.short(), mv.map(|v| v.short())));
                         return;
                     }
